@@ -142,6 +142,9 @@ func rulesC05(c *Ctx) {
 
 	// ---- position origin ----
 	posoriginC05(c, entry)
+	delimitedC05(c)
+	readVerbatimRule(c, "C05.readverbatim")
+	stringEndRule(c, "C05.strend")
 	// ---- sub-scanner entry matches what the sub-scanner accepts ----
 	c.Rule("C05.idententry", "Scan hands a rune to the identifier scanner exactly when isIdentFirstChar accepts it (or it is a double quote): for any other rune the identifier scanner reads nothing, the token is empty and the scan never gets past that rune")
 	identEntryRule(c, "C05.idententry")
@@ -231,7 +234,17 @@ func posoriginC05(c *Ctx, entry map[string]map[int]bool) {
 			nret++
 			off, known := resolveOffset(ret.Results[1], offsetOf, 0)
 			key := fmt.Sprintf("(*Scanner).%s: position of returned token", name)
+			late := false
+			if ex, ok := ret.Results[1].(*ssa.Extract); ok && ex.Index == 1 {
+				if call, ok := ex.Tuple.(*ssa.Call); ok && call.Block().Index != 0 {
+					if cal := call.Call.StaticCallee(); cal == curr || cal == read {
+						late = true
+					}
+				}
+			}
 			switch {
+			case !known && late:
+				c.Bad("C05.posorigin", key, ret.Pos(), "the position is taken from the reader after the token's text was consumed: the token is reported where it ends (only BADESCAPE reports the offending escape by design)")
 			case !known:
 				c.Unk("C05.posorigin", key, ret.Pos(), "the returned position is not one captured in the function's entry block")
 			case off != 0:
@@ -307,6 +320,10 @@ func ringCap(p *Program, typ string) int {
 func rulesC06(c *Ctx) {
 	p := c.P
 	tt := p.tokenTable()
+	readVerbatimRule(c, "C06.readverbatim")
+	stringEndRule(c, "C06.strend")
+	c.Rule("C06.pure", "QuoteString, QuoteIdent and IdentNeedsQuotes (and what they call in the package) read no mutable package-level state: the quoted form depends on the value alone (a memo keyed by the joined segments answers `a.b` quoted as one name with the form computed for the two names a, b)")
+	pureRule(c, "C06.pure", "QuoteString", "QuoteIdent", "IdentNeedsQuotes")
 	// ---- escapes ----
 	c.Rule("C06.escapes", "the escape table of each quoting helper is the inverse of the scanner's unescape table and covers every rune the scanner treats specially inside that kind of quote: its own closing quote, backslash and newline; escaping is a single simultaneous pass (one strings.Replacer)")
 	unesc, specials, ok := scanStringTables(c)
@@ -861,4 +878,231 @@ func eofPosC05(c *Ctx) {
 	} else {
 		c.OK("C05.eofpos", key, f.Pos(), "not advanced")
 	}
+}
+
+// delimitedC05: a sub-scanner that hands the body of a quoted token to
+// ScanString/ScanDelimited returns with the reader where that scan left it.
+func delimitedC05(c *Ctx) {
+	p := c.P
+	c.Rule("C05.delimited", "after ScanString/ScanDelimited has consumed a quoted token (or stopped at the offending rune), the sub-scanner that called it does not move the reader again before it returns: a read or push-back there makes the next token start one rune early or late")
+	read := p.SSAFunc(p.Method("reader", "read"))
+	unread := p.SSAFunc(p.Method("reader", "unread"))
+	n := 0
+	for _, f := range p.allSSAFuncs() {
+		if f.Signature.Recv() == nil || !strings.HasSuffix(f.Signature.Recv().Type().String(), ".Scanner") {
+			continue
+		}
+		for _, b := range f.Blocks {
+			for i, in := range b.Instrs {
+				call, ok := in.(*ssa.Call)
+				if !ok {
+					continue
+				}
+				cal := call.Call.StaticCallee()
+				if cal == nil || cal.Pkg != p.SPkg || (cal.Name() != "ScanString" && cal.Name() != "ScanDelimited") {
+					continue
+				}
+				n++
+				key := fmt.Sprintf("%s: after %s", ssaFuncName(f), cal.Name())
+				var moved *ssa.Call
+				scanInstrs := func(ins []ssa.Instruction) {
+					for _, x := range ins {
+						if c2, ok := x.(*ssa.Call); ok && moved == nil {
+							if k := c2.Call.StaticCallee(); k == read || k == unread {
+								moved = c2
+							}
+						}
+					}
+				}
+				scanInstrs(b.Instrs[i+1:])
+				seen := map[*ssa.BasicBlock]bool{}
+				work := append([]*ssa.BasicBlock{}, b.Succs...)
+				for len(work) > 0 {
+					x := work[len(work)-1]
+					work = work[:len(work)-1]
+					if seen[x] {
+						continue
+					}
+					seen[x] = true
+					scanInstrs(x.Instrs)
+					work = append(work, x.Succs...)
+				}
+				if moved != nil {
+					c.Bad("C05.delimited", key, moved.Pos(), "the reader is moved ("+moved.Call.StaticCallee().Name()+") after the delimited scan returned")
+				} else {
+					c.OK("C05.delimited", key, call.Pos(), "the reader is left where the delimited scan stopped")
+				}
+			}
+		}
+	}
+	c.Floor("C05.delimited", n, 2)
+}
+
+// readVerbatimRule: reader.read buffers the rune the underlying reader
+// produced — every rune of the input reaches the scanner.
+func readVerbatimRule(c *Ctx, rule string) {
+	p := c.P
+	c.Rule(rule, "reader.read stores into its ring the rune returned by its one primary ReadRune call, or one of the constants it substitutes (end marker, newline for CR / CR LF): a rune obtained from a further ReadRune call replaces — i.e. drops — an input character, so the text inside quotes no longer reaches the token unchanged")
+	f := p.SSAFunc(p.Method("reader", "read"))
+	if f == nil {
+		c.Unk(rule, "(*reader).read", 0, "anchor not found")
+		return
+	}
+	var rr []*ssa.Call
+	for _, b := range f.Blocks {
+		for _, in := range b.Instrs {
+			if call, ok := in.(*ssa.Call); ok && call.Call.IsInvoke() && call.Call.Method.Name() == "ReadRune" {
+				rr = append(rr, call)
+			}
+		}
+	}
+	var primary *ssa.Call
+	for _, a := range rr {
+		dom := true
+		for _, b := range rr {
+			if a != b && !a.Block().Dominates(b.Block()) {
+				dom = false
+			}
+		}
+		if dom {
+			primary = a
+		}
+	}
+	if primary == nil {
+		c.Unk(rule, "(*reader).read: primary ReadRune", f.Pos(), "no ReadRune call dominates the others")
+		return
+	}
+	n := 0
+	for _, b := range f.Blocks {
+		for _, in := range b.Instrs {
+			st, ok := in.(*ssa.Store)
+			if !ok {
+				continue
+			}
+			fa, ok := st.Addr.(*ssa.FieldAddr)
+			if !ok || fieldNameOf(fa) != "ch" {
+				continue
+			}
+			n++
+			key := fmt.Sprintf("(*reader).read: buffered rune #%d", n)
+			bad, unk := "", ""
+			seen := map[ssa.Value]bool{}
+			var walk func(v ssa.Value)
+			walk = func(v ssa.Value) {
+				if seen[v] {
+					return
+				}
+				seen[v] = true
+				switch x := v.(type) {
+				case *ssa.Phi:
+					for _, e := range x.Edges {
+						walk(e)
+					}
+				case *ssa.Const:
+				case *ssa.Extract:
+					if call, ok := x.Tuple.(*ssa.Call); ok && x.Index == 0 {
+						if call == primary {
+							return
+						}
+						for _, o := range rr {
+							if o == call {
+								bad = "a rune from a second ReadRune call (" + p.Fset.Position(call.Pos()).String() + ") is buffered in place of the first: the first is dropped"
+								return
+							}
+						}
+					}
+					unk = "a value this rule does not trace"
+				default:
+					unk = "a value this rule does not trace"
+				}
+			}
+			walk(st.Val)
+			switch {
+			case bad != "":
+				c.Bad(rule, key, st.Pos(), bad)
+			case unk != "":
+				c.Unk(rule, key, st.Pos(), unk)
+			default:
+				c.OK(rule, key, st.Pos(), "the primary ReadRune's rune or a substituted constant")
+			}
+		}
+	}
+	c.Floor(rule, n, 1)
+}
+
+// stringEndRule: a quoted string ends at the first closing quote that is not
+// behind a backslash.
+func stringEndRule(c *Ctx, rule string) {
+	p := c.P
+	c.Rule(rule, "ScanString returns as soon as it reads the rune it opened with, without looking at what follows: the backslash forms are the only way to put a quote inside a string, so everyone who finds the end of a string by that rule (the quoting helpers, the redaction patterns, a reader of the printed text) agrees with the lexer; a doubled quote, say, read as an escaped quote makes `'a''b'` one token for the lexer and two strings for them")
+	f := p.SSAFunc(p.Func("ScanString"))
+	if f == nil {
+		c.Unk(rule, "ScanString", 0, "anchor not found")
+		return
+	}
+	isRR := func(in ssa.Instruction) bool {
+		call, ok := in.(*ssa.Call)
+		return ok && call.Call.IsInvoke() && (call.Call.Method.Name() == "ReadRune" || call.Call.Method.Name() == "UnreadRune")
+	}
+	var ending ssa.Value
+	for _, in := range f.Blocks[0].Instrs {
+		if isRR(in) {
+			for _, ref := range *in.(*ssa.Call).Referrers() {
+				if ex, ok := ref.(*ssa.Extract); ok && ex.Index == 0 {
+					ending = ex
+				}
+			}
+			break
+		}
+	}
+	if ending == nil {
+		c.Unk(rule, "ScanString: opening rune", f.Pos(), "the function does not start by reading the opening rune")
+		return
+	}
+	n := 0
+	for _, b := range f.Blocks {
+		ifi, ok := b.Instrs[len(b.Instrs)-1].(*ssa.If)
+		if !ok {
+			continue
+		}
+		bo, ok := ifi.Cond.(*ssa.BinOp)
+		if !ok || (bo.Op != token.EQL && bo.Op != token.NEQ) || (bo.X != ending && bo.Y != ending) {
+			continue
+		}
+		n++
+		key := fmt.Sprintf("ScanString: closing quote #%d", n)
+		x := b.Succs[0]
+		if bo.Op == token.NEQ {
+			x = b.Succs[1]
+		}
+		verdict := ""
+		for hops := 0; hops < 4 && verdict == ""; hops++ {
+			for _, in := range x.Instrs {
+				if isRR(in) {
+					verdict = "moves"
+				}
+			}
+			if verdict != "" {
+				break
+			}
+			switch last := x.Instrs[len(x.Instrs)-1].(type) {
+			case *ssa.Return:
+				verdict = "returns"
+			case *ssa.Jump:
+				x = x.Succs[0]
+			default:
+				_ = last
+				verdict = "branches"
+			}
+		}
+		switch verdict {
+		case "returns":
+			c.OK(rule, key, bo.Pos(), "returns at once")
+		case "moves":
+			c.Bad(rule, key, bo.Pos(), "after the closing quote another rune is read (or pushed back) before the function decides to return: the end of a string depends on what follows the quote")
+		default:
+			c.Unk(rule, key, bo.Pos(), "the closing-quote branch does not lead straight to a return")
+		}
+	}
+	c.Floor(rule, n, 1)
 }
